@@ -95,7 +95,11 @@ Fixpoint bt_to_rose (b : btree) : tree :=
 
 Definition oid_eqb := opt_eqb Nat.eqb.
 
-Definition check_bin (root : btree) (o : bobs) : nat :=
+(* the slots of the node that holds g in one of its slots, as observed *)
+Definition observed_parent_slots (nodes : list bobs) (g : nat) : option (list (option nat)) :=
+  option_map b_slots (find (fun o => existsb (fun c => oid_eqb c (Some g)) (b_slots o)) nodes).
+
+Definition check_bin (root : btree) (nodes : list bobs) (o : bobs) : nat :=
   let t := bt_to_rose root in
   let p := pos_of_tag t (b_self o) in
   match bt_find root (b_self o) with
@@ -106,14 +110,11 @@ Definition check_bin (root : btree) (o : bobs) : nat :=
         match b_ext o with
         | XNone => (true, true)
         | XDiam code value =>
-            (match bt_diameter node with
-             | Ret v => Nat.eqb code 0 && Nat.eqb value v
-             | Raise e => Nat.eqb code (exn_code e)
-             end,
+            (Nat.eqb code 0 && Nat.eqb value (bt_diameter node),
              prop_C12_binary_diameter t p code value)
         | XSibs l =>
             (list_eqb oid_eqb l (bt_siblings root (b_self o)),
-             prop_C12_binary_siblings t p (map (option_map (pos_of_tag t)) l))
+             prop_C12_binary_siblings (observed_parent_slots nodes (b_self o)) (b_self o) l)
         end in
       flag (negb (links_ok && Bool.eqb (binary_is_leaf (b_slots o)) (b_isleaf o) && agree)) F_DISAGREE
       + flag (negb (prop_C12_binary_leaf (b_slots o) (b_isleaf o) && holds)) F_PROPFAIL
@@ -126,5 +127,5 @@ Definition check_C12 (c : dcase) : nat :=
       let complete := lpos_eq (map (fun o => pos_of_tag t (n_self o)) nodes) (positions t) in
       or_flags (flag (negb complete) F_DISAGREE
                 :: map (check_node t) nodes ++ map (check_goto t other) gotos)
-  | DB root nodes => or_flags (map (check_bin root) nodes)
+  | DB root nodes => or_flags (map (check_bin root nodes) nodes)
   end.
